@@ -64,6 +64,9 @@ Proof.
           intros [|[|[|k]]] Hk Hk2; cbn [nth] in *; try lia; lra.
 Qed.
 
+Lemma nhalf_R_local : nhalf ROps = 1 / 2.
+Proof. unfold nhalf, ntwo. cbn. lra. Qed.
+
 (* ------------------------------------------------------------------ geometry of the walk *)
 Section Seg.
 Variable d : nat.
@@ -196,4 +199,54 @@ Proof.
   - eapply ginv_meets. exact G'.
   - eapply IH; [exact G'|exact W'|lia].
 Qed.
+
+(* the whole cast: every visited cell (the origin cell included) is met by the segment *)
+Theorem cast_cells_meet_segment (c : caster (T:=R)) :
+  length (rc_oidx c) = d -> length (rc_tmax c) = d -> rc_eidx c = eidx -> rc_step c = step -> rc_tdelta c = tdelta ->
+  (forall i, (i < d)%nat -> (nth i eidx 0 - nth i (rc_oidx c) 0 = nth i step 0 * Z.abs (nth i eidx 0 - nth i (rc_oidx c) 0))%Z) ->
+  (forall i, (i < d)%nat -> (0 < Z.abs (nth i eidx 0 - nth i (rc_oidx c) 0))%Z ->
+     nth i (rc_tmax c) 0 + IZR (Z.abs (nth i eidx 0 - nth i (rc_oidx c) 0)%Z) * nth i tdelta 0 <= B) ->
+  ginv 0 (rc_oidx c, rc_tmax c) ->
+  Forall meets (cast_cells ROps c).
+Proof.
+  intros Lo Lt Ee Es Ed Hsign Hbound G.
+  assert (W : winv d eidx step tdelta B (rc_oidx c, rc_tmax c)).
+  { unfold winv. split; [exact Lo|]. split; [exact Lt|]. split; [exact Hsign|exact Hbound]. }
+  unfold cast_cells. rewrite Ee, Es, Ed. constructor.
+  - exact (ginv_meets 0 _ G).
+  - apply (walk_meets _ 0); [exact G|exact W|].
+    unfold potential, remaining. unfold ncells. rewrite Ee. rewrite (fold_abs_sumf d) by assumption.
+    assert (0 <= RayCastProofs.sumf d (fun i => Z.abs (nth i eidx 0 - nth i (rc_oidx c) 0)%Z))%Z by (apply sumf_nonneg; intros; lia).
+    cbn [fst]. rewrite Z2Nat.id by lia. lia.
+Qed.
 End Seg.
+
+(* what setEndPoint stores makes the invariant true at T = 0, per axis: the first crossing parameter is where the
+   ray meets the border of the origin cell in the direction of travel, and it is not negative *)
+Lemma axis_setup_crossing (a : axis (T:=R)) (oc dirc : R) (oi : Z) :
+  0 < ax_r a ->
+  ax_org a + IZR oi * ax_r a <= oc <= ax_org a + (IZR oi + 1) * ax_r a ->
+  let '(st, tm, td) := axis_setup ROps a oc oi dirc in
+  (st = 1%Z -> 0 < dirc /\ 0 <= tm /\ oc + tm * dirc = ax_org a + (IZR oi + 1) * ax_r a /\ td * dirc = ax_r a) /\
+  (st = (-1)%Z -> dirc < 0 /\ 0 <= tm /\ oc + tm * dirc = ax_org a + IZR oi * ax_r a /\ td * dirc = - ax_r a) /\
+  (st = 0%Z -> dirc = 0).
+Proof.
+  intros Hr Hin. unfold axis_setup. cbn [nltb nzero ROps].
+  destruct (Rltb 0 dirc) eqn:E1; [apply Rltb_true in E1|apply Rltb_false in E1].
+  - cbn [Z.eqb]. unfold gm_centre. cbn [nadd nmul nsub ndiv nofZ nabs ROps]. rewrite nhalf_R_local.
+    split; [intros _|split; intros; discriminate || lia].
+    split; [exact E1|]. rewrite Rabs_right by lra.
+    assert (Hd0 : dirc <> 0) by lra.
+    split; [|split; [field; exact Hd0|field; exact Hd0]].
+    apply Rmult_le_pos; [|left; apply Rinv_0_lt_compat; exact E1]. simpl (IZR 1). lra.
+  - destruct (Rltb dirc 0) eqn:E2; [apply Rltb_true in E2|apply Rltb_false in E2].
+    + cbn [Z.eqb]. unfold gm_centre. cbn [nadd nmul nsub ndiv nofZ nabs ROps]. rewrite nhalf_R_local.
+      split; [intros; discriminate|]. split; [intros _|intros; discriminate].
+      split; [exact E2|]. rewrite Rabs_left by lra.
+      assert (Hd0 : dirc <> 0) by lra.
+      split; [|split; [field; exact Hd0|field; exact Hd0]].
+      replace ((ax_org a + (IZR oi + 1 / 2) * ax_r a + IZR (-1) * ax_r a * (1 / 2) - oc) / dirc)
+        with ((oc - (ax_org a + IZR oi * ax_r a)) * / (- dirc)) by (simpl (IZR (-1)); field; exact Hd0).
+      apply Rmult_le_pos; [lra|left; apply Rinv_0_lt_compat; lra].
+    + cbn [Z.eqb]. split; [intros; discriminate|]. split; [intros; discriminate|]. intros _. lra.
+Qed.
